@@ -188,8 +188,9 @@ class Origins:
                 for t, v in zip(target.elts, value.elts):
                     self._bind(t, v)
             else:
+                # `first, *rest = stream`: a plain target receives one element of the value, the starred one the remainder
                 for t in target.elts:
-                    self._bind(t.value if isinstance(t, ast.Starred) else t, value, elem=False)
+                    self._bind(t.value if isinstance(t, ast.Starred) else t, value, elem=not isinstance(t, ast.Starred) and any(isinstance(x, ast.Starred) for x in target.elts))
         elif isinstance(target, ast.Starred):
             self._bind(target.value, value)
 
